@@ -117,8 +117,8 @@ func newFileFromLog(log map[string]string) Rule {
 	if err != nil {
 		panic(fmt.Errorf("newFileFromLog(%v): %w", log, err))
 	}
-	if slices.Compare(accesses, []string{"l"}) == 0 {
-		return newLinkFromLog(log)
+	if slices.Compare(accesses, []string{"l"}) == 0 && log["target"] != "" {
+		return newLinkFromLog(log) // (without a target there is no pair to write: a file rule with the l access)
 	}
 	name := log["name"]
 	if strings.Contains(log["info"], "disconnected path") && !strings.HasPrefix(name, "/") {
